@@ -90,6 +90,12 @@ class Scenario:
                     f.write(b"totp: Ym9i\n")
             if kind == "tmp-residue":
                 open(os.path.join(st.base, ".tmp", "leftover"), "wb").write(b"residue")
+                # left-overs under names an implementation might derive from the user name, longer than
+                # anything an update writes: they must neither be read nor shine through
+                stale = b"".join(b"stale%03d: %s\n" % (i, b"z" * 50) for i in range(60))
+                for u in ("alice", "dave"):
+                    for nm in (u + ".new", u, u + ".user", u + ".tmp", u + ".user.tmp", "." + u, u + ".user.new"):
+                        open(os.path.join(st.base, ".tmp", nm), "wb").write(stale)
             if kind == "no-tmp":
                 shutil.rmtree(os.path.join(st.base, ".tmp"), ignore_errors=True)
 
